@@ -100,6 +100,14 @@ def gen_sim_config(rng, small=True, diseases=None, networks=None, demographics=N
     return cfg
 
 
+TIME_KEYS = ('dt', 'unit', 'start', 'stop')
+
+
+def _own_time(d):
+    """ a module's own timeline (any of dt / unit / start / stop), passed through as given """
+    return {k: d[k] for k in TIME_KEYS if k in d and d[k] is not None}
+
+
 def _user_dist(spec):
     """ a distribution object made by the USER before the simulation exists (strict=False: it initialises itself and may be
         drawn from at once) — spec = dict(dist=<family>, pars={...}, preview=<draws taken from it before the sim is built>) """
@@ -120,12 +128,14 @@ def _disease(d):
         if 'dur_inf' in d: kw['dur_inf'] = d['dur_inf']
         if 'p_death' in d: kw['p_death'] = d['p_death']
         if 'name' in d: kw['name'] = d['name']
+        kw.update(_own_time(d))
         return ss.SIR(**kw)
     if t == 'sis':
         kw = dict(beta=d.get('beta', 0.1), init_prev=d.get('init_prev', 0.05))
         if 'dur_inf' in d: kw['dur_inf'] = d['dur_inf']
         if 'waning' in d: kw['waning'] = d['waning']
         if 'name' in d: kw['name'] = d['name']
+        kw.update(_own_time(d))
         return ss.SIS(**kw)
     cls = dict(hiv=ss.HIV, gonorrhea=ss.Gonorrhea, syphilis=ss.Syphilis, cholera=ss.Cholera, ebola=ss.Ebola,
                measles=ss.Measles, ncd=ss.NCD)[t]
@@ -136,7 +146,7 @@ def _network(n, n_agents, cfg=None):
     import starsim as ss
     n = dict(n); t = n.pop('type')
     if t == 'random':
-        return ss.RandomNet(n_contacts=n.get('n_contacts', 4), dur=n.get('dur', 0))
+        return ss.RandomNet(n_contacts=n.get('n_contacts', 4), dur=n.get('dur', 0), **_own_time(n))
     if t == 'mf':
         return ss.MFNet(duration=ss.lognorm_ex(mean=n.get('duration', 5), std=1.0)) if 'duration' in n else ss.MFNet()
     if t == 'msm':
@@ -166,11 +176,11 @@ def _demog(d):
     import starsim as ss
     d = dict(d); t = d.pop('type')
     if t == 'births':
-        return ss.Births(birth_rate=d.get('birth_rate', 20))
+        return ss.Births(birth_rate=d.get('birth_rate', 20), **_own_time(d))
     if t == 'deaths':
-        return ss.Deaths(death_rate=d.get('death_rate', 10))
+        return ss.Deaths(death_rate=d.get('death_rate', 10), **_own_time(d))
     if t == 'pregnancy':
-        kw = dict(fertility_rate=d.get('fertility_rate', 50))
+        kw = dict(fertility_rate=d.get('fertility_rate', 50)); kw.update(_own_time(d))
         if d.get('p_maternal_death'): kw['p_maternal_death'] = ss.bernoulli(d['p_maternal_death'])
         if d.get('p_neonatal_death'): kw['p_neonatal_death'] = ss.bernoulli(d['p_neonatal_death'])
         if 'burnin' in d: kw['burnin'] = d['burnin']
@@ -187,8 +197,27 @@ def _intervention(i):
         if 'start_year' in i: kw['start_year'] = i['start_year']
         if 'end_year' in i: kw['end_year'] = i['end_year']
         if 'name' in i: kw['name'] = i['name']
+        kw.update(_own_time(i))
         return ss.routine_vx(**kw)
+    if t == 'killer':
+        return make_killer(i.get('p', 0.05), i.get('name', 'killer'), **_own_time(i))
     raise ValueError(t)
+
+
+def make_killer(p, name, **kw):
+    """ an intervention that requests the death of each living agent with probability p per step, through the public
+        People.request_death() and its own distribution (deaths whose source is neither a disease nor a demographics module) """
+    import starsim as ss
+
+    class Killer(ss.Intervention):
+        def __init__(self, p, **kw2):
+            super().__init__(**kw2)
+            self.define_pars(p_kill=ss.bernoulli(p=p))
+        def step(self):
+            uids = self.pars.p_kill.filter(self.sim.people.auids)
+            if len(uids): self.sim.people.request_death(uids)
+            return uids
+    return Killer(p, name=name, **kw)
 
 
 def build_sim(cfg, extra_interventions=None, extra_analyzers=None, **over):
@@ -206,6 +235,8 @@ def build_sim(cfg, extra_interventions=None, extra_analyzers=None, **over):
     ana = list(extra_analyzers or [])
     if intv: pars['interventions'] = intv
     if ana: pars['analyzers'] = ana
+    if cfg.get('own_people'):       # a population object the user built beforehand
+        pars['people'] = ss.People(cfg['n_agents'])
     pars.update(over)
     return ss.Sim(**pars)
 
